@@ -149,7 +149,8 @@ Section AddrTextProofs.
     p2wpkh_decode segwit_dec hrp s = Ok (h160 pub).
   Proof.
     unfold p2wpkh_encode, p2wpkh_decode. intros Hh Hp E. rewrite (segwit_rt _ _ _ _ Hh (h160_ok pub) Hp E).
-    rewrite c2v_ok. cbn [bind Ok]. rewrite N.eqb_refl. reflexivity.
+    rewrite c2v_ok. cbn [bind Ok]. rewrite validate_length_ok by apply h160_len. cbn [bind Ok].
+    rewrite N.eqb_refl. reflexivity.
   Qed.
 
   Theorem p2tr_decode_encode hrp pub s : hrp_cond hrp -> bytes_ok (taproot_tweak pub) ->
@@ -188,11 +189,12 @@ Section AddrTextProofs.
   Theorem algo_decode_encode pub s : alph_ok None -> bytes_ok pub ->
     algo_encode sha512_256 b32_enc_nopad pub = Ok s ->
     length pub = (ed25519_compr_len - 1)%nat -> valid_pub 2 pub = true ->
-    algo_decode sha512_256 valid_pub b32_dec s = Ok pub.
+    algo_decode sha512_256 valid_pub b32_enc_nopad b32_dec s = Ok pub.
   Proof.
     intros Ha Hb E Hl Hv. unfold algo_decode. unfold algo_encode in E.
     assert (Hpl : bytes_ok (pub ++ algo_checksum sha512_256 pub)) by (apply bytes_ok_app; split; [exact Hb|apply bytes_ok_skipn, s5_ok]).
     rewrite (b32_rt _ _ _ Ha Hpl E).
+    cbn [bind Ok]. unfold canonical_b32. rewrite E. cbn [bind Ok]. rewrite list_eqb_refl.
     cbn [bind Ok]. rewrite validate_length_ok.
     2:{ rewrite app_length, algo_ck_len, Hl. reflexivity. }
     cbn [bind Ok]. unfold split_by_checksum.
@@ -223,7 +225,7 @@ Section AddrTextProofs.
 
   Theorem fil_decode_encode pub_u s : alph_ok (Some fil_alphabet) ->
     fil_encode blake2b b32_enc_nopad pub_u = Ok s ->
-    fil_decode blake2b b32_dec s = Ok (blake2b blake2b160_len pub_u).
+    fil_decode blake2b b32_enc_nopad b32_dec s = Ok (blake2b blake2b160_len pub_u).
   Proof.
     intros Ha. unfold fil_encode. set (h := blake2b blake2b160_len pub_u).
     destruct (b32_enc_nopad (Some fil_alphabet) (h ++ fil_checksum blake2b fil_secp_type h)) as [e|] eqn:E;
@@ -236,6 +238,7 @@ Section AddrTextProofs.
     assert (Hck : length (fil_checksum blake2b fil_secp_type h) = blake2b32_len) by apply b2b_len.
     assert (Hpl : bytes_ok (h ++ fil_checksum blake2b fil_secp_type h)) by (apply bytes_ok_app; split; apply b2b_ok).
     rewrite (b32_rt _ _ _ Ha Hpl E).
+    cbn [bind Ok]. unfold canonical_b32. rewrite E. cbn [bind Ok]. rewrite list_eqb_refl.
     cbn [bind Ok]. rewrite validate_length_ok.
     2:{ rewrite app_length, Hck. unfold h. rewrite b2b_len. reflexivity. }
     cbn [bind Ok]. unfold split_by_checksum.
@@ -267,7 +270,8 @@ Section AddrTextProofs.
     rewrite Ee. rewrite (b32_rt _ _ _ Ha Hpd E).
     cbn [bind Ok]. rewrite validate_length_ok.
     2:{ rewrite app_length. unfold body. rewrite app_length, Hck, Hl. vm_compute. reflexivity. }
-    cbn [bind Ok]. rewrite skipn_app, Nat.sub_diag, skipn_all. cbn [app skipn].
+    cbn [bind Ok]. rewrite remove_prefix_app. cbn [bind Ok].
+    rewrite skipn_app, Nat.sub_diag, skipn_all. cbn [app skipn].
     unfold split_by_checksum, body.
     rewrite (drop_last_app' blake2b40_len), (take_last_app' blake2b40_len) by exact Hck.
     unfold validate_checksum. rewrite list_eqb_refl. cbn [bind Ok]. rewrite Hv. reflexivity.
